@@ -222,6 +222,89 @@ class MetLayout(One3dLayout):
         return dict((k, np.asarray(v, dtype='f')) for k, v in out.items())
 
 
+class WindLayout(object):
+    """CAMx wind file: per step
+        [time f (HHMM)] [date i (YYJJJ)] [lstagger i]     (12-byte header;
+                                                           8 bytes without
+                                                           the stagger flag)
+        per layer:  [u: cells f]  [v: cells f]
+        [dummy record: `dummy` words]
+    every record framed by 4-byte big-endian length markers.  The dummy
+    record holds one word in the sample file of the repository and in files
+    written by the library (`dummy` = 1)."""
+
+    def __init__(self, nz, T, cells, dummy, date0, time0, stagger=True,
+                 step=100, eod=2400):
+        self.nz, self.T, self.cells, self.dummy = nz, T, cells, dummy
+        self.stagger = stagger
+        self.times = []
+        d, t = date0, time0
+        for i in range(T):
+            self.times.append((d, t))
+            t2 = t + step
+            carry = t2 >= eod
+            if isinstance(carry, symx.SymBool):
+                carry = carry.e
+                d = symx.SymInt(z3.If(carry, symx._num(d)[1] + 1,
+                                      symx._num(d)[1]))
+                t = symx.SymInt(z3.If(carry, symx._num(t2)[1] - eod,
+                                      symx._num(t2)[1]))
+            else:
+                d, t = (d + 1, t2 - eod) if carry else (d, t2)
+        self.HS = (12 if stagger else 8)        # header payload bytes
+        self.P = 4 * cells + 8                  # padded data record
+        self.D = 4 * dummy + 8                  # padded dummy record
+        self.B = self.HS + 8 + 2 * nz * self.P + self.D
+        self.H = 0
+        self.records = []
+        self.length = T * self.B
+
+    def header(self, ti):
+        return ti * self.B
+
+    def data_record(self, ti, k, uv):
+        """k 0-based layer, uv 0 = u, 1 = v"""
+        return ti * self.B + self.HS + 8 + (2 * k + uv) * self.P
+
+    def dummy_record(self, ti):
+        return ti * self.B + self.HS + 8 + 2 * self.nz * self.P
+
+    def all_dynamic(self):
+        out = []
+        for ti in range(self.T):
+            out.append((self.header(ti), self.HS, 'one', (ti, None)))
+            for k in range(self.nz):
+                for uv in (0, 1):
+                    out.append((self.data_record(ti, k, uv), self.P - 8,
+                                'wdata', (ti, k, uv)))
+            out.append((self.dummy_record(ti), self.D - 8, 'wdummy', ti))
+        return out
+
+    def write_real(self, path, rows, cols):
+        """encode with struct only; returns {'U': ..., 'V': ...}"""
+        rng = np.random.RandomState(19)
+        uv = (rng.rand(self.T, self.nz, 2, rows, cols) * 20 - 10).astype(
+            '>f4')
+
+        def rec(body):
+            m = struct.pack('>i', len(body))
+            return m + body + m
+        with open(path, 'wb') as f:
+            for ti in range(self.T):
+                d, t = self.times[ti]
+                hdr = struct.pack('>fi', float(t), int(d))
+                if self.stagger:
+                    hdr += struct.pack('>i', 0)
+                f.write(rec(hdr))
+                for k in range(self.nz):
+                    f.write(rec(uv[ti, k, 0].tobytes()))
+                    f.write(rec(uv[ti, k, 1].tobytes()))
+                f.write(rec(struct.pack('>%df' % int(self.dummy),
+                                        *([0.] * int(self.dummy)))))
+        a = np.asarray(uv, dtype='f')
+        return {'U': a[:, :, 0], 'V': a[:, :, 1]}
+
+
 class SymFile(object):
     """file object with a symbolic position over a reference layout; the
     twin's unpack_from_file asks model_unpack for the values the layout puts
